@@ -59,6 +59,7 @@
 #include "uncrustify_version.h"
 #include "unicode.h"
 #include "universalindentgui.h"
+#include "verif_hooks.h"
 #include "width.h"
 
 #include <cerrno>
@@ -1972,6 +1973,9 @@ static void uncrustify_start(const deque<int> &data)
 {
    // Parse the text into chunks
    tokenize(data, Chunk::NullChunkPtr);
+#ifdef UNCRUSTIFY_VERIF
+   verif_dump_chunks("UNC_VERIF_TOKENS", "tokenize");
+#endif
    PROT_THE_LINE
 
    cpd.unc_stage = unc_stage_e::HEADER;
@@ -2409,6 +2413,9 @@ void uncrustify_file(const file_mem &fm, FILE *pfout, const char *parsed_file,
       align_backslash_newline();
    }
    dump_step(dump_file, "Final version");
+#ifdef UNCRUSTIFY_VERIF
+   verif_dump_chunks("UNC_VERIF_FINAL", "final");
+#endif
 
    // which output is to be done?
    if (cpd.html_file == nullptr)
